@@ -266,8 +266,9 @@ pub fn c13_grid(p: &Profile) -> Vec<Value> {
 
 // ---------------------------------------------------------------- C14 / C15
 
-const VERSIONS: [&str; 22] = [
+const VERSIONS: [&str; 27] = [
     "0.16.2", "0.19.0", "0.19.1", "0.16.1", "0.16.3", "0.19.2", "0.18.2", "0.17.0", "0.15.0", "0.14.9", "0.15.1", "1.0.0", "0.9.0", "2.3.4", "0.16.10", "0.20.0", "0.2.99", "garbage", "", "one.two.three", "1.0.0.0.x", "v1.0.0",
+    "0.16.2-rc.1", "0.16.2-alpha", "0.16.1+build5", "0.15.9-rc1", "0.16.2-0",
 ];
 
 fn split3(total: u128, w: u32, parts: usize) -> Vec<u128> {
